@@ -40,8 +40,11 @@ TStruct(fs) == [k |-> "struct", f |-> fs]
 \* every numeric kind (the text of a value is its exact decimal / shortest float64 text)
 NumKinds == {"int8", "int16", "int32", "int64", "int", "uint8", "uint16", "uint32", "uint64", "uint", "float32", "float64"}
 Inner == TStruct(<<Fld("X", <<"x">>, "", T("int64")), Fld("Y", <<"y", "z">>, "", T("string"))>>)
+\* positional structs: fields bound to list positions, alone and next to a named field
+Pos    == TStruct(<<Fld("From", <<"0">>, "", T("int64")), Fld("To", <<"1">>, "", T("int64"))>>)
+PosMix == TStruct(<<Fld("At", <<"1">>, "", T("dur")), Fld("Kind", <<"kind">>, "", T("string"))>>)
 Prims == {T("bool"), T("int8"), T("int64"), T("uint64"), T("float64"), T("string"), T("dur")}
-FieldTypes == Prims \cup {TPtr(T("int64")), TPtr(Inner), TSlice(T("int64")), TSlice(Inner), TArr(T("uint64")), TMap(T("string")), TMap(Inner), Inner}
+FieldTypes == Prims \cup {TPtr(T("int64")), TPtr(Inner), TSlice(T("int64")), TSlice(Inner), TArr(T("uint64")), TMap(T("string")), TMap(Inner), Inner, Pos, PosMix, TPtr(Pos)}
 
 \* ---------- values ----------
 V(k, v) == [k |-> k, v |-> v]
@@ -83,21 +86,28 @@ Vals(t) ==
 DurText(ns) == CASE ns = "1500000000" -> "1.5s" [] ns = "0" -> "0s" [] ns = "60000000000" -> "1m0s" [] ns = "-1" -> "-1ns" [] OTHER -> "?"
 
 \* ---------- paths on trees (named segments only) ----------
+\* a tag segment that is an integer literal is a LIST INDEX (positional binding: From int `config:"0"`)
+IdxSegs == ("0" :> 0) @@ ("1" :> 1)
+IsIdxSeg(k) == k \in DOMAIN IdxSegs
+PadTo(a, n) == [i \in 1..n |-> IF i <= Len(a) THEN a[i] ELSE Nil]
 RECURSIVE SetPath(_,_,_)
 \* insert v at path into node tree following normalizeSetField: returns tree or DUPE
 SetPath(tree, path, v) ==
   LET k == path[1]
-      old == IF k \in DOMAIN tree.d THEN tree.d[k] ELSE None IN
+      isx == IsIdxSeg(k)
+      ix  == IF isx THEN IdxSegs[k] + 1 ELSE 0
+      old == IF isx THEN (IF ix <= Len(tree.a) THEN tree.a[ix] ELSE None)
+             ELSE IF k \in DOMAIN tree.d THEN tree.d[k] ELSE None
+      Put(x) == IF isx THEN N(tree.d, [PadTo(tree.a, IF ix > Len(tree.a) THEN ix ELSE Len(tree.a)) EXCEPT ![ix] = x])
+                ELSE N([y \in DOMAIN tree.d \cup {k} |-> IF y = k THEN x ELSE tree.d[y]], tree.a) IN
   IF Len(path) = 1 THEN
      IF old # None /\ old.k # "nil" /\ v.k = "nil" THEN tree
-     ELSE IF old = None \/ old.k = "nil" THEN N([x \in DOMAIN tree.d \cup {k} |-> IF x = k THEN v ELSE tree.d[x]], tree.a)
+     ELSE IF old = None \/ old.k = "nil" THEN Put(v)
      ELSE DUPE                                          \* (sub+sub merge does not occur in this universe)
-  ELSE IF old = None \/ old.k = "nil" THEN
-          LET sub == SetPath(Empty, Tail(path), v) IN
-          N([x \in DOMAIN tree.d \cup {k} |-> IF x = k THEN sub ELSE tree.d[x]], tree.a)
+  ELSE IF old = None \/ old.k = "nil" THEN Put(SetPath(Empty, Tail(path), v))
   ELSE IF old.k # "n" THEN [err |-> "expected_object"]
   ELSE LET sub == SetPath(old, Tail(path), v) IN
-       IF IsErr(sub) THEN sub ELSE N([x \in DOMAIN tree.d |-> IF x = k THEN sub ELSE tree.d[x]], tree.a)
+       IF IsErr(sub) THEN sub ELSE Put(sub)
 
 \* ---------- Pack ----------
 RECURSIVE Pack(_,_), PackFields(_,_,_,_)
